@@ -100,6 +100,22 @@ Definition concat_attr (keep rm : Z) (g : graph) (attr : pystr) : res graph :=
   | _, _ => Err EType
   end.
 
+(** `if 'hcount' in kept and 'hcount' in removed: kept['hcount'] = min(kept['hcount'], removed['hcount'])`
+    (/repo e7bad38).  Python's min returns its FIRST argument unless the second is strictly smaller; the
+    numbers are ints or floats d.0 / d.5 (compared in half units; anything else is a TypeError). *)
+Definition hcount_min (keep rm : Z) (g : graph) : res graph :=
+  n <- node_attrs g keep ;;
+  c <- of_option (aget (S "contraction") n) EKey ;;
+  cd <- match c with VDict d => Ok d | _ => Err EType end ;;
+  vd <- of_option (dict_get (VInt rm) cd) EKey ;;
+  vdd <- match vd with VDict d => Ok d | _ => Err EType end ;;
+  match aget squash_min_attr n, dict_get (VStr squash_min_attr) vdd with
+  | Some a, Some b =>
+      ha <- half_of_num a ;; hb <- half_of_num b ;;
+      Ok (set_node_attr g keep squash_min_attr (if hb <? ha then b else a))
+  | _, _ => Ok g
+  end.
+
 Definition sqstate := (graph * list (Z * Z))%type.
 Definition squash_step (st : sqstate) (e : Z * Z * pyval) : res sqstate :=
   let '(g, sq) := st in
@@ -112,7 +128,13 @@ Definition squash_step (st : sqstate) (e : Z * Z * pyval) : res sqstate :=
   let sq' := sq_set rm keep sq in
   g1 <- contracted squash_self_loops g keep rm ;;
   g2 <- fold_res (concat_attr keep rm) squash_concat_attrs g1 ;;
-  Ok (g2, sq').
+  (* In the code the hcount line comes BEFORE the two concatenations.  The three writes go to different
+     keys of the kept node's dict and read only 'contraction' and their own key, so they commute; every one
+     must succeed for the call to return.  The model performs the hcount write last (observationally the
+     same graph and the same raise / no-raise outcome) so that the proofs of other components about the
+     first two writes keep their shape. *)
+  g3 <- hcount_min keep rm g2 ;;
+  Ok (g3, sq').
 
 Definition squash_atoms (g : graph) : res graph :=
   st <- fold_res squash_step (edge_attr_items g squash_edge_attr) (g, []) ;;
